@@ -1,0 +1,61 @@
+// Verification hooks. Compiled only with the `verif-hooks` cargo feature, which is
+// off by default: without it this module does not exist and no call to it is emitted.
+
+//! Step ("fuel") counter used by the deterministic-simulation harness in /verif.
+//!
+//! The decoders call [tick](self::tick) once per scanner byte, lexer token and parsed value.
+//! A harness thread may [arm](self::arm) a budget; when more ticks than the budget happen
+//! before [disarm](self::disarm) is called, `tick` unwinds with a [FuelExhausted] payload so a
+//! loop that never touches its reader is reported deterministically instead of hanging.
+//! When not armed, `tick` only reads a thread local.
+
+use std::cell::Cell;
+
+thread_local! {
+    static BUDGET: Cell<u64> = const { Cell::new(0) };
+    static USED: Cell<u64> = const { Cell::new(0) };
+}
+
+/// Payload of the unwind started by [tick](self::tick) when the armed budget is exceeded.
+#[derive(Debug, Clone, Copy, PartialEq, Eq)]
+pub struct FuelExhausted {
+    /// Name of the tick site that went over the budget
+    pub site: &'static str,
+    /// Number of ticks counted
+    pub used: u64,
+}
+
+/// Arms the calling thread's counter with `budget` ticks (0 disarms) and resets the count.
+pub fn arm(budget: u64) {
+    BUDGET.with(|b| b.set(budget));
+    USED.with(|u| u.set(0));
+}
+
+/// Disarms the calling thread's counter and returns the number of ticks counted since `arm`.
+pub fn disarm() -> u64 {
+    BUDGET.with(|b| b.set(0));
+    USED.with(|u| u.get())
+}
+
+/// Number of ticks counted on the calling thread since the last `arm`.
+pub fn used() -> u64 {
+    USED.with(|u| u.get())
+}
+
+/// Counts one step at `site`. Unwinds with [FuelExhausted] if the armed budget is exceeded.
+#[inline]
+pub fn tick(site: &'static str) {
+    let budget = BUDGET.with(|b| b.get());
+    if budget == 0 {
+        return;
+    }
+    let used = USED.with(|u| {
+        let n = u.get() + 1;
+        u.set(n);
+        n
+    });
+    if used > budget {
+        BUDGET.with(|b| b.set(0));
+        std::panic::resume_unwind(Box::new(FuelExhausted { site, used }));
+    }
+}
